@@ -548,7 +548,6 @@ macro_rules! with_type {
         }
     }};
 }
-pub(crate) use with_type;
 
 /// Byte-level untagged decoding entry point of `ty`.
 pub fn decode(ty: Ty, b: &[u8]) -> Outcome<BoxSubj> {
